@@ -34,14 +34,25 @@ NOT covered: rounding of float + - * / (only exact dyadic operands/results), dec
     results, quotes/escapes inside the splitter (string constants are opaque atoms of the model), SYMTYPE/DEFINED,
     user-defined FUNCTIONs, OUTRADIX formatting beyond hexadecimal integers, locale-dependent TOUPPER > 127.
 
-Mutations of the real code tried (scratch copy, VERIF_REPO): see the end of this docstring, filled in by the builder:
-    * operator.c: priority of "&" raised above "|"                    -> caught (value mismatch, many cases)
-    * operator.c: SubOp operands swapped                              -> caught
-    * asmpars.c EvalStrExpression: ">=" in the priority comparison turned into ">" (leftmost instead of rightmost)
-                                                                      -> caught (7-2-1 style cases)
-    * function.c FuncSTRSTR returns position+1                        -> caught
-    * intformat.c ChkIntFormatInt: radix guard `<=` -> `<`            -> caught by the literal part
-    * asmpars.c DivOp: error for /0 removed (yields 0)                -> caught (error expected)
+Known findings of the pinned tree (known_findings/C08.json, one proposed fix each, all 201 golden tests pass with them):
+    float ^ with negative base, FIRSTBIT of odd numbers, -2^63 / -1 and # -1 (SIGFPE), `!=` alias missing, SUBSTR with a
+    negative start, `>>` arithmetic instead of logical, strings of 0 or > 4 characters used as numbers (garbage / silence),
+    `x >< 32`, BITPOS(-2^63), RADIX > 10 turning words like FF or BAD into constants.  Side observation (not C08):
+    `strlen(1)`, `upstring(1)` ... end in "internal error" + fatal exit 3 because function.c's (1 << type) masks are handed
+    to DeduceExpectTypeErrMsgMask, which expects plain type masks (the same reason `toupper('a')` complains about a float).
+    The check counts that as "an error is reported".
+
+Mutations of the real code tried (fresh copy of /repo, VERIF_REPO, ./check C08 --tier quick):
+    * operator.c: priority of "&" 5 -> 7 (same as "!")   -> MISSED by the first version (only single operators and random
+      deep trees were replayed); after adding the parenthesis-free two-operator formulas (mode "flat"): caught, 18
+      violations, e.g. `3&7|5` = 3 instead of 7
+    * operator.c SubOp: integer operands swapped                       -> caught (629 violations)
+    * asmpars.c EvalStrExpression: ">=" in the priority comparison -> ">" (leftmost instead of rightmost operator)
+                                                                      -> caught (4122 violations)
+    * function.c FuncSTRSTR returns position + 1                       -> caught (72)
+    * intformat.c ChkIntFormatInt: radix guard `<=` -> `<`             -> caught by the literal part (279)
+    * operator.c DivOp: integer x/0 yields 0 instead of an error       -> caught (36, "no error is reported")
+    With all ten proposed fixes applied to a copy: 0 violations, no KNOWN-FINDING line.
 """
 import os
 import re
@@ -82,7 +93,7 @@ def generate(rep, tier):
     rep.model("Expr_Gen(%s)" % cfg, g)
     _collect(g, holder, cases, seen)
     n1 = len(cases)
-    nsim = 80 if tier == "quick" else 4000
+    nsim = 80 if tier == "quick" else 1500
     s = tlc.must(tlc.run("Expr_Gen", "Expr_Sim.cfg", workers=3, simulate=nsim, depth=8, timeout=1500, mem="6g"),
                  "Expr_Sim")
     if s.violation:
